@@ -394,6 +394,7 @@ func (n NaturalLanguageValues) MarshalJSON() ([]byte, error) {
 	}
 	b.Write([]byte{'{'})
 	empty := true
+	written := make(map[LangRef]struct{}, l)
 	for _, val := range n {
 		if len(val.Value) == 0 {
 			continue
@@ -402,6 +403,11 @@ func (n NaturalLanguageValues) MarshalJSON() ([]byte, error) {
 			// a language map needs a key for every value, "und" is the BCP47 tag for an undetermined language
 			val.Ref = undLangRef
 		}
+		if _, repeated := written[val.Ref]; repeated {
+			// a JSON object must not repeat a member name: the first value of a tag is the one Get returns
+			continue
+		}
+		written[val.Ref] = struct{}{}
 		if !empty {
 			b.Write([]byte{','})
 		}
